@@ -344,19 +344,19 @@ impl PacmanClient {
 
 fn pacman(params: Params, check_mode: bool) -> Result<ModuleResult> {
     let packages: BTreeSet<String> = params.name.iter().cloned().collect();
+    // an explicit `null` (e.g. a template that renders to nothing) overrides the serde defaults
     let client = PacmanClient::new(
-        // safe unwrap: params is already parsed and it has default values
-        Path::new(&params.executable.unwrap()),
-        params.force.unwrap(),
+        Path::new(&params.executable.or_else(default_executable).unwrap_or_default()),
+        params.force.unwrap_or(false),
         params.extra_args,
         check_mode,
     );
 
-    if params.update_cache.unwrap() {
+    if params.update_cache.unwrap_or(false) {
         client.update_cache()?;
     };
 
-    let (p_to_install, p_to_remove) = match params.state.unwrap() {
+    let (p_to_install, p_to_remove) = match params.state.unwrap_or_default() {
         State::Present => {
             let p: Vec<String> = packages
                 .difference(&client.get_installed()?)
@@ -382,7 +382,7 @@ fn pacman(params: Params, check_mode: bool) -> Result<ModuleResult> {
         }
     };
 
-    let upgrade_changed = params.upgrade.unwrap() && client.upgrade()?;
+    let upgrade_changed = params.upgrade.unwrap_or(false) && client.upgrade()?;
 
     let install_changed = if !p_to_install.is_empty() {
         logger::add(&p_to_install);
